@@ -72,6 +72,7 @@ class RobotModel:
         self.fb_nt = {}
         self.faults_fired = 0
         self.p = period_us(cfg)
+        self.p_next = self.p       # control_loop_wait_time as the robot object holds it now; a mode latches it on entry
         self.expiry = None
         self.cap = cfg["cap_waits"]
         self.comps = declared_order(cfg)
@@ -151,6 +152,8 @@ class RobotModel:
                 self.autosel = a[1]
             elif k == "utia":
                 self.utia = bool(a[1])
+            elif k == "period":
+                self.p_next = int(a[1] * 1e6)
             elif k == "select":
                 self.sel_pending = a[1]
             elif k == "end":
@@ -235,6 +238,8 @@ class RobotModel:
                 self.autosel = a[1]
             elif k == "utia":
                 self.utia = bool(a[1])
+            elif k == "period":
+                self.p_next = int(a[1] * 1e6)
             elif k == "select":
                 self.sel_pending = a[1]
             elif k == "end":
@@ -326,6 +331,7 @@ class RobotModel:
         it = 0
         self._all("on_disable")
         self.guarded("robot.disabledInit")
+        self.p = self.p_next
         self.expiry = self.now + self.p
         while not self.done:
             if self.ds["enabled"]:
@@ -341,6 +347,7 @@ class RobotModel:
         it = 0
         self._all("on_enable")
         self.guarded("robot.teleopInit")
+        self.p = self.p_next
         self.expiry = self.now + self.p
         while not self.done:
             if not (self.ds["enabled"] and self.ds["mode"] == "teleop"):
@@ -369,6 +376,7 @@ class RobotModel:
         self._all("on_enable")
         self.guarded("robot.autonomousInit")
         utia = self.utia           # the flag as it is when the period starts
+        self.p = self.p_next       # ... and the loop period
         m = self.selected_mode()
         t0 = self.now
         mm = self.mode_models.get(m) if m is not None else None
@@ -409,6 +417,7 @@ class RobotModel:
         self.mode_nt = "test"
         it = 0
         self.guarded("robot.testInit")
+        self.p = self.p_next
         self.expiry = self.now + self.p
         while not self.done:
             if not (self.ds["enabled"] and self.ds["mode"] == "test"):
